@@ -12,7 +12,12 @@ synthesised) each getter is called on the canonical number v = validate(x) and o
   date-agrees-with-year-month   get_birth_year/get_birth_month (where present) agree with get_birth_date
   split-concatenates        ''.join(split(v)) == v  (ISMN-10 is documented to be split in its 13 digit form)
   presentation-independent  getter(x) and getter(v) give the same answer (both are the same number)
+Every getter is called a second time on the canonical number after everything reachable from the first result has
+been emptied / overwritten by the caller (lists popped, dictionaries cleared): total, kind and split-concatenates are
+statements about every call, also about the second one of the same number (registry lookups that hand out a
+cached container, which a caller such as isbn.split then consumes, fail only there).
 """
+import copy
 import datetime
 import inspect
 import os
@@ -160,6 +165,28 @@ def kind_ok(modname, fname, value):
     return isinstance(value, str), 'str'
 
 
+def consume(v, depth=0):
+    """what a caller may do with a result: empty every list / dict / set reachable from it (tuples are walked)"""
+    if depth > 4:
+        return
+    try:
+        if isinstance(v, dict):
+            for x in list(v.values()):
+                consume(x, depth + 1)
+            v.clear()
+        elif isinstance(v, list):
+            for x in list(v):
+                consume(x, depth + 1)
+            del v[:]
+        elif isinstance(v, set):
+            v.clear()
+        elif isinstance(v, tuple):
+            for x in v:
+                consume(x, depth + 1)
+    except Exception:   # noqa: B902
+        pass
+
+
 def check_number(ctx, modname, getters, x, today, enter=True):
     """all C12 relations for one input under one frozen date; returns True when x was valid"""
     mod = common.module(modname)
@@ -174,36 +201,48 @@ def check_number(ctx, modname, getters, x, today, enter=True):
             for label, arg in (('canonical', v), ('raw', x)):
                 if label == 'raw' and x == v:
                     continue
-                out = E.call(f, arg)
-                results[(fname, label)] = out
-                ctx.tick('getter:%s.%s' % (modname.replace('stdnum.', ''), fname), 'outcome:' + out.kind, 'arg:' + label)
-                ctx.nontriv('%s|%s|%s|%s' % (modname, fname, v, today))
-                if out.kind == 'exc':
-                    ctx.fail(modname, fname, arg, today, out.show() + ' on a number accepted by validate()',
-                             'a value or a ValidationError', 'total', site=out.site, presentation=label)
-                    continue
-                if out.kind != 'ok':
-                    continue
-                ok, want = kind_ok(modname, fname, out.value)
-                if not ok:
-                    ctx.fail(modname, fname, arg, today, out.show(), want, 'kind', presentation=label)
-                    continue
-                if fname == 'get_birth_date' and out.value is not None:
-                    dg = digits_of(modname, v)
-                    if dg is not None:
-                        y, ymod, m, d = dg
-                        got = out.value
-                        if (got.year % ymod, got.month, got.day) != (y % ymod, m, d):
-                            ctx.fail(modname, fname, arg, today, '%s for digits year=%s month=%s day=%s of %r' % (got.isoformat(), y, m, d, v),
-                                     'a date with those digits', 'date-agrees-with-digits', presentation=label)
-                if fname == 'split':
-                    joined = ''.join(out.value)
-                    alt = [v]
-                    if modname == 'stdnum.ismn' and len(v) == 10:
-                        alt.append('9790' + v[1:])
-                    if joined not in alt:
-                        ctx.fail(modname, fname, arg, today, 'parts %r concatenate to %r' % (tuple(out.value), joined),
-                                 'the canonical number %r' % v, 'split-concatenates', presentation=label)
+                for callno in ((1, 2) if label == 'canonical' else (1,)):
+                    out = E.call(f, arg)
+                    if callno == 1:
+                        results[(fname, label)] = out
+                    ctx.tick('getter:%s.%s' % (modname.replace('stdnum.', ''), fname), 'outcome:' + out.kind,
+                             'arg:' + label + ('' if callno == 1 else ':second-call'))
+                    ctx.nontriv('%s|%s|%s|%s' % (modname, fname, v, today))
+                    extra = {'presentation': label}
+                    if callno == 2:
+                        extra['call'] = 'second call with the same argument, after the first result was consumed by the caller'
+                    if out.kind == 'exc':
+                        ctx.fail(modname, fname, arg, today, out.show() + ' on a number accepted by validate()',
+                                 'a value or a ValidationError', 'total', site=out.site, **extra)
+                        break
+                    if out.kind != 'ok':
+                        break
+                    ok, want = kind_ok(modname, fname, out.value)
+                    if not ok:
+                        ctx.fail(modname, fname, arg, today, out.show(), want, 'kind', **extra)
+                        break
+                    if fname == 'get_birth_date' and out.value is not None and callno == 1:
+                        dg = digits_of(modname, v)
+                        if dg is not None:
+                            y, ymod, m, d = dg
+                            got = out.value
+                            if (got.year % ymod, got.month, got.day) != (y % ymod, m, d):
+                                ctx.fail(modname, fname, arg, today, '%s for digits year=%s month=%s day=%s of %r' % (got.isoformat(), y, m, d, v),
+                                         'a date with those digits', 'date-agrees-with-digits', **extra)
+                    if fname == 'split':
+                        joined = ''.join(out.value)
+                        alt = [v]
+                        if modname == 'stdnum.ismn' and len(v) == 10:
+                            alt.append('9790' + v[1:])
+                        if joined not in alt:
+                            ctx.fail(modname, fname, arg, today, 'parts %r concatenate to %r' % (tuple(out.value), joined),
+                                     'the canonical number %r' % v, 'split-concatenates', **extra)
+                    if callno == 1 and isinstance(out.value, (dict, list, set, tuple)):
+                        try:        # keep an independent copy for the comparisons below, then consume the original
+                            results[(fname, label)] = E.Out(('ok', copy.deepcopy(out.value)))
+                        except Exception:   # noqa: B902
+                            break
+                        consume(out.value)
             a, b = results.get((fname, 'canonical')), results.get((fname, 'raw'))
             if a is not None and b is not None and a.kind != 'exc' and b.kind != 'exc':
                 ctx.tick('relation:presentation-independent')
